@@ -366,7 +366,8 @@ def recoverOuter (stay pb : Bool) : Nat → IS → Byte → Bool → Nat → Nat
 def recoveryScan (stay pb : Bool) (fuel : Nat) (s : IS) (c : Byte) : Out LoopRes := recoverOuter stay pb fuel s.clear c false 0 0
 
 /-- `SDAI_Application_instance::STEPread` of an entity without attributes: `in >> ws; in >> c;` (a character other than `(`
-is put back), `ReadTokenSeparator`, `in >> c` — a `)` ends the read, anything else goes to the recovery scan with that `c` -/
+is put back), `ReadTokenSeparator`, `in >> c` — a `)` ends the read (`sev` 1), anything else goes to the recovery scan with that `c` and
+the read reports an error (`sev` 0) -/
 def stepReadNoAttrs (stay pb cm : Bool) (iters fuel : Nat) (s : IS) : Out LoopRes :=
   match readTokenSeparator cm iters fuel
       (if (s.ws.extract).2.getD 0 = 40 then (s.ws.extract).1 else (s.ws.extract).1.putback ((s.ws.extract).2.getD 0)) with
@@ -374,7 +375,7 @@ def stepReadNoAttrs (stay pb cm : Bool) (iters fuel : Nat) (s : IS) : Out LoopRe
     if (r.s.extract).2.getD ((s.ws.extract).2.getD 0) = chRParen then .ok ⟨(r.s.extract).1, 1, 0, r.steps + 1⟩
     else
       match recoveryScan stay pb fuel (r.s.extract).1 ((r.s.extract).2.getD ((s.ws.extract).2.getD 0)) with
-      | .ok r2 => .ok ⟨r2.s, r2.sev, r2.len, r.steps + 1 + r2.steps⟩
+      | .ok r2 => .ok ⟨r2.s, 0, r2.len, r.steps + 1 + r2.steps⟩
       | o => o
   | o => o
 
